@@ -253,6 +253,20 @@ class Interp:
         over a literal table is a different site in every iteration)"""
         return (id(node), tuple(getattr(self, 'loop_iters', ())))
 
+    def no_merge(self):
+        """called by contracts and observers that record what happens on the Python side (their records are not undone by the
+        trail): inside a merged `if` the two outcomes must be explored apart"""
+        if getattr(self, 'merge_depth', 0) > 0:
+            raise MergeFail('observer with a side effect inside a merged branch')
+
+    def exec_while_step(self, stmt, fr):
+        """one iteration of a `while` under a loop rule: the test (it may bind names: `while buf := read(...)`) and, if it
+        holds, the body; a false test leaves the loop like `break`"""
+        if not (isinstance(stmt.test, ast.Constant) and stmt.test.value is True):
+            if not self.decide(self.eval(stmt.test, fr)):
+                raise BreakSig()
+        self.exec_loop_body(stmt.body, fr)
+
     def exec_loop_body(self, body, fr):
         """one iteration of a loop body under a loop rule: `continue` ends the step like falling off the end of the body
         (`break` propagates to the rule)"""
@@ -273,6 +287,48 @@ class Interp:
             g = set()
             fr.vars['$globals'] = g
         g.update(s.names)
+
+    def st_Match(self, s, fr):
+        """`match` over value / singleton / or / wildcard / capture patterns with optional guards: the if/elif chain it stands for"""
+        subj = ast.Name(id='$match_subject', ctx=ast.Load())
+        fr.set('$match_subject', self.eval(s.subject, fr))
+
+        def cond(p):
+            if isinstance(p, ast.MatchValue):
+                return ast.Compare(left=subj, ops=[ast.Eq()], comparators=[p.value]), []
+            if isinstance(p, ast.MatchSingleton):
+                return ast.Compare(left=subj, ops=[ast.Is()], comparators=[ast.Constant(value=p.value)]), []
+            if isinstance(p, ast.MatchOr):
+                cs = [cond(q) for q in p.patterns]
+                if any(b for _, b in cs):
+                    raise Unsupported('capture inside an or-pattern')
+                return ast.BoolOp(op=ast.Or(), values=[c for c, _ in cs]), []
+            if isinstance(p, ast.MatchAs) and p.pattern is None:
+                return ast.Constant(value=True), ([p.name] if p.name else [])
+            if isinstance(p, ast.MatchAs):
+                c, b = cond(p.pattern)
+                return c, b + ([p.name] if p.name else [])
+            raise Unsupported('match pattern %s' % type(p).__name__)
+        chain = None
+        for case in reversed(s.cases):
+            c, binds = cond(case.pattern)
+            body = [ast.Assign(targets=[ast.Name(id=nm, ctx=ast.Store())], value=subj) for nm in binds] + list(case.body)
+            if case.guard is not None:
+                if binds:
+                    raise Unsupported('guard on a capturing pattern')
+                c = ast.BoolOp(op=ast.And(), values=[c, case.guard])
+            node = ast.If(test=c, body=body, orelse=[chain] if chain is not None else [])
+            ast.copy_location(node, case.pattern)
+            chain = node
+        if chain is not None:
+            ast.fix_missing_locations(chain)
+            key = id(s)
+            cached = _NORMALIZED.get(('match', key))
+            if cached is None:
+                _NORMALIZED[('match', key)] = (s, chain)
+            else:
+                chain = cached[1]
+            self.exec_stmt(chain, fr)
 
     def st_Nonlocal(self, s, fr):
         nl = fr.vars.get('$nonlocals')
@@ -442,7 +498,13 @@ class Interp:
             mark = len(tr.log)
             pcmark = len(ctx.pc)
             ctx.pc.append(c)
-            val = run()
+            self.merge_depth = getattr(self, 'merge_depth', 0) + 1
+            try:
+                val = run()
+            except BaseException:
+                self.merge_depth -= 1
+                raise
+            self.merge_depth -= 1
             # collect writes
             writes = {}
             for obj, key, old in tr.log[mark:]:
